@@ -4,16 +4,15 @@
  'functions': ['bsearch'],
  'clauses': 'ISO 7.22.5.1: returns a pointer to an element comparing equal to the key if and only if one exists (NULL otherwise); every compar call gets (key, element inside the array)',
  'inject': [
-   {'file': 'compat/libc/stdlib/bsearch.c', 'func': 'bsearch', 'ghost': 'g_bl = 0; g_bd = nmemb;', 'at': 'func-begin'},
+   {'file': 'compat/libc/stdlib/bsearch.c', 'func': 'bsearch', 'ghost': 'g_bl = 0; g_bd = nmemb; g_sr_idx = 0;', 'at': 'func-begin'},
    {'file': 'compat/libc/stdlib/bsearch.c', 'func': 'bsearch', 'ghost': 'g_bm = g_bl + (g_bd >> 1); g_sr_idx = g_bm;',
     'at': 'after', 'anchor': 'mid = left + ((right - left) / (size << 1) * size);'},
-   {'file': 'compat/libc/stdlib/bsearch.c', 'func': 'bsearch', 'ghost': 'if (right == mid) { g_bd = g_bd >> 1; } else { g_bd = g_bd - (g_bd >> 1); g_bl = g_bm; }',
+   {'file': 'compat/libc/stdlib/bsearch.c', 'func': 'bsearch', 'ghost': 'if (right == mid) { g_bd = g_bd >> 1; } else { g_bd = g_bd - (g_bd >> 1); g_bl = g_bm; } g_sr_idx = g_bl;',
     'at': 'body-end', 'loop': 0},
-   {'file': 'compat/libc/stdlib/bsearch.c', 'func': 'bsearch', 'ghost': 'g_sr_idx = g_bl;',
-    'at': 'before', 'anchor': 'if (compar(left, key) == 0)'},
  ],
  'unwindset': ['vc_bsearch.0:5'], 'unwind': 10, 'solver': 'kissat',
  'kf': ['C11_bsearch_empty', 'C11_bsearch_argorder'],
+ 'kf_probe_case': {'C11_bsearch_argorder': {'probed_by': 'bsearch_safe'}, 'C11_bsearch_empty': {'probed_by': 'bsearch_safe'}},
  'witness': {'unwind': 10, 'unwindset': ['vc_bsearch.0:5']},
  'assumptions': ['bsearch_result: the array is sorted consistently with the comparator (ISO 7.22.5.1p2)'],
 } @*/
